@@ -648,7 +648,7 @@ PROPS = {
                            "Rodbus.C13.exactly_once", "Rodbus.C13.never_sleeps_on_requests"],
         suites=[dict(gen="life", n=(45, 2500), jobs=16,
                      exhaustive="thorough: every action sequence of length <= 4 over {none, enable, disable, shutdown, drop handles, request} "
-                                "(one per stop) for each single environment fault followed by recovery"), dict(gen="sport", n=(40, 300), jobs=16)],
+                                "(one per stop) for each single environment fault followed by recovery"), dict(gen="sport", n=(40, 300), jobs=16), dict(gen="cl_block", n=(20, 500))],
         extra_oracle=lambda c, i: life_oracle(c, i) if c.startswith("life ") else None,
         level_text="Proof over the model of TcpChannelTask (run / run_inner / connect / try_connect_and_run / run_connection / "
                    "handle_failed_connection) + the command handling of ClientLoop, for EVERY script of user actions injected at every listener "
